@@ -367,7 +367,8 @@ def run_exec_freeze(res, ast):
                       f"{ty}::execute_in must generate its code from self on every call ({fn_}(limited, safe))")
             if ok:
                 a = [T(ast, path, x) for x in calls[0]["args"]]
-                res.check(a == ["limited", "safe"], "EXEC-FREEZE", f"{path}|{ty}::execute_in|mode-args", where(path, f, "execute_in"),
+                ps_ = [p_["pat"]["name"] for p_ in f["sig"]["inputs"] if p_["t"] == "Arg"]
+                res.check(len(ps_) == 3 and a == ps_[1:], "EXEC-FREEZE", f"{path}|{ty}::execute_in|mode-args", where(path, f, "execute_in"),
                           f"{fn_} must receive this call's (limited, safe); found {a}")
         except Missing as m:
             res.missing("EXEC-FREEZE", m)
